@@ -85,6 +85,14 @@ CHECKS = {
         note="Termination is decided by a loop-variant monitor on BinaryZlibFile._fill_buffer plus a step budget of 20x the undamaged load, RLIMIT_AS and a 20 s back-stop; the pure-Python/C pickle opcode loop is trusted to consume input. Damage is applied to the byte string joblib.load sees.",
         design_ref="2/C14",
     ),
+    "C18": dict(
+        category="exploration",
+        engine="E4-enumerators",
+        technique="bounded-exhaustive enumeration of stores x limit combinations through the real Memory.reduce_size on real entry directories, brute-force minimal-LRU-prefix reference",
+        text="All stores of up to 4 (thorough: 5) entries with sizes in {0,1,2,3} units and access times in three classes (ties included) are built as real cache directories and reduced with every combination of bytes / items / age limits at and around every boundary; the evicted set must be, for some tie order, the shortest least-recently-used prefix after which all limits hold. Surviving genuine results must load without recomputation and evicted ones recompute.",
+        note="datetime.now inside joblib._store_backends is owned by the harness; sizes are exact output.pkl sizes on tmpfs; age equality at the deadline is not exercised.",
+        design_ref="2/C18",
+    ),
 }
 
 NOT_BUILT_REASON = "check not built yet in this revision of /verif (planned in DESIGN.md section 2; model checking applies)"
